@@ -281,6 +281,7 @@ class Oracle:
             out.append(("AssertionError", True))
         if n.kind in ("withexit", "except"):
             return out
+        out.extend(self._implicit(n))
         for x in _own_walk(n):
             if isinstance(x, ast.Call):
                 if self.call_raises is not None:
@@ -301,6 +302,37 @@ class Oracle:
                 seen.add(c)
                 res.append(c)
         return res
+
+    def _implicit(self, n: Node) -> list[tuple[str, bool]]:
+        """KeyError/IndexError from subscripts and AttributeError from attribute
+        loads -- only where an enclosing ``try`` names such a class, so that the
+        handler becomes live without adding exits to every statement."""
+        a = n.ast
+        if a is None:
+            return []
+        anchor = n.owner if n.owner is not None else a
+        want: set[str] = set()
+        node = anchor
+        for anc in self.repo.ancestors(anchor):
+            if isinstance(anc, (ast.FunctionDef, ast.Lambda, ast.AsyncFunctionDef)):
+                break
+            if isinstance(anc, ast.Try) and any(node is b for b in anc.body):
+                for h in anc.handlers:
+                    for c in handler_class_names(self.repo, self.fi, h.type):
+                        if c in ("KeyError", "IndexError", "LookupError", "AttributeError"):
+                            want.add(c)
+            node = anc
+        if not want:
+            return []
+        out = []
+        for x in _own_walk(n):
+            if isinstance(x, ast.Subscript) and isinstance(x.ctx, ast.Load):
+                for c in ("KeyError", "IndexError"):
+                    if c in want or "LookupError" in want:
+                        out.append((c, True))
+            if isinstance(x, ast.Attribute) and isinstance(x.ctx, ast.Load) and "AttributeError" in want:
+                out.append(("AttributeError", True))
+        return out
 
     def raise_classes(self, exc: ast.AST, handler_classes: list[str] | None) -> list[tuple[str, bool]]:
         if isinstance(exc, ast.Call):
